@@ -15,7 +15,7 @@ import (
 // result into an empty non-nil slice; the printers take `Names == nil` as "anonymous", so a single unnamed result
 // comes back parenthesised: `func f() int` is printed as `func f() (int)` after the round trip. (The repository's
 // own golden test ast/togo TestBasic expects the parenthesised form, so this is recorded, not repaired.)
-func TestVerifWitnessAnonResult(t *testing.T) {
+func TestGovcWitnessAnonResult(t *testing.T) {
 	const src = "package p\n\nfunc f() int\n"
 	fset := token.NewFileSet()
 	f, err := parser.ParseFile(fset, "p.go", src, 0)
